@@ -4,3 +4,5 @@ package go_clipper2
 
 // no-op twin of verif_trace.go: the event calls compile to nothing without the verif tag.
 func vEvent(kind string, vals []float64, pts ...Point64) {}
+
+func vBool(b bool) float64 { return 0 }
